@@ -28,7 +28,7 @@ def run(ctx) -> None:
 
 
 def _eval(e: ast.AST, env: dict[str, Any]) -> Any:
-    return eval(compile(ast.Expression(body=e), "<cidr>", "eval"), {"__builtins__": {}}, env)  # noqa: S307 — extracted integer arithmetic only
+    return eval(compile(ast.Expression(body=e), "<cidr>", "eval"), {"__builtins__": {"round": round, "min": min, "max": max, "abs": abs, "int": int, "divmod": divmod, "len": len}}, env)  # noqa: S307 — extracted integer arithmetic only
 
 
 class _Net:
